@@ -375,13 +375,13 @@ def raw_stack(data, plan, iostats, kind, knobs=None):
     return t
 
 
-def raw_sink(plan, iostats, knobs=None):
+def raw_sink(plan, iostats, knobs=None, encoding='utf-8'):
     """TextIOWrapper(BufferedWriter(SimRawIO)) handed to dump as an open text stream."""
     knobs = knobs or {}
     sf = SimFile()
     raw = SimRawIO(sf, 'w', plan, iostats)
     buf = io.BufferedWriter(raw, knobs.get('buffer_size') or io.DEFAULT_BUFFER_SIZE)
-    t = io.TextIOWrapper(buf, 'utf-8', None, None)
+    t = io.TextIOWrapper(buf, encoding, None, None)
     return t, sf
 
 
@@ -449,6 +449,15 @@ class DuckSink:
 
     def content(self):
         return ''.join(self.parts)
+
+
+class DuckSinkConsole(DuckSink):
+    """A sys.stdout-like sink: write(str), flush(), and encoding/errors attributes."""
+    encoding = 'latin-1'
+    errors = 'strict'
+
+    def flush(self):
+        pass
 
 
 class DuckSinkFlush(DuckSink):
